@@ -58,6 +58,8 @@ def deep_find(ig, desc, pred, depth=0, seen=None, through_args=False):
             th = ig.rthis(n)
             if th is not None:
                 ops.append(th)
+            if n.ev["e"] == "asg" and "lhs" in n.ev:
+                ops.append(ig.resolve(n.ev["lhs"], n.frame))   # value of ++x / x = y is x
             if through_args:
                 ops.extend(ig.resolve(a, n.frame) for a in n.ev.get("args", []))
             for x in ops:
